@@ -125,6 +125,10 @@ def run(repo, rep, tier):
                         bad.append((desc, '%d-bit modulus carries a size note (row %s)' % (want, row[1:])))
                     if bool(infos) != want_note:
                         bad.append((desc, 'fallback note %s although the follow-up probe %s the result' % ('present' if infos else 'absent', 'changed' if want_note else 'did not change')))
+    from props import _gexmodel
+    _n2, _bad2 = _gexmodel.both_methods_problems(repo, rep)
+    nmodels += _n2
+    bad.extend(_bad2)
     rep.floor('policies', 'server moduli policies interpreted', nmodels, 4096)
     rep.check('policies', 'the recorded modulus is the smallest the server hands out, rated by the thresholds, for %d policy x banner x algorithm models' % nmodels, not bad, gr,
               'group-exchange measurement wrong for a %s: %s [%d models deviate]' % ((bad[0][0], bad[0][1], len(bad)) if bad else ('', '', 0)), stmt='moduli policy models', sample={'rule': 'policies', 'models': nmodels})
